@@ -14,6 +14,10 @@ KEEP_FIRST = 0
 SHARDS = {'quick': 1, 'thorough': 1}
 
 
+# every op is a call of a function whose result must not depend on earlier calls: also evaluated in other orders
+PURE_OPS = True
+
+
 def cases(ctx):
     rng = ctx.rng
     ops = [f'I.imps {d}' for d in range(-4200, 4201)]
